@@ -35,10 +35,9 @@ Definition dv_inv_decl (d : decl) : bool :=
 Definition dv_inv (ds : list decl) : bool := forallb dv_inv_decl ds && mem_text t_mapped (dnames ds).
 
 Lemma deriver_args_inv n v u o a b :
-  deriver_args n u o = inr (a, b) -> dv_inv_decl (mkDecl n v (Some a) (Some b)) = true.
+  deriver_hints n u o = inr (a, b) -> dv_inv_decl (mkDecl n v (Some a) (Some b)) = true.
 Proof.
-  unfold deriver_args, dv_inv_decl, t_mapped. cbn [dname dbefore].
-  assert (Ef : dv_after_is_under = true) by reflexivity. rewrite Ef.
+  unfold deriver_hints, dv_inv_decl, t_mapped. cbn [dname dbefore].
   assert (Eim : text_eqb dv_ingress dv_forced_over = false) by reflexivity.
   destruct (text_eqb n dv_ingress || text_eqb n dv_view); [discriminate|].
   set (over0 := as_sorted_tuple match o with HNone => HOne dv_default_over | _ => o end).
@@ -85,7 +84,7 @@ Lemma dv_inv_ops l : forall ds, dv_inv ds = true ->
 Proof.
   induction l as [|[[[n f] u] o] l IH]; intros ds H; simpl; [exact H|].
   rewrite fold_left_app. apply IH. unfold deriver_op.
-  destruct (deriver_args n u o) as [c|[a b]] eqn:E; simpl; [exact H|].
+  destruct (deriver_hints n u o) as [c|[a b]] eqn:E; simpl; [exact H|].
   apply dv_inv_add; [exact H|]. eapply deriver_args_inv. exact E.
 Qed.
 
@@ -199,7 +198,9 @@ Lemma deriver_add_op n f u o s :
   | inl _ => deriver_op (n, f, u, o) = []
   end.
 Proof.
-  unfold deriver_add, deriver_op. destruct (deriver_args n u o) as [c|[a b]]; reflexivity.
+  (* the code's keyword mapping (regenerated fact) is the property's reading: after = under, before = over *)
+  assert (Ef : dv_after_is_under = true) by reflexivity.
+  unfold deriver_add, deriver_args, deriver_op. rewrite Ef. destruct (deriver_hints n u o) as [c|[a b]]; reflexivity.
 Qed.
 
 Lemma derivers_scenario_ops adds :
